@@ -39,6 +39,10 @@ CHECKS["C07"] = dict(level="model_checking", ref="DESIGN.md §5 C07, §9", thoro
    text="explicit-state enumeration of (syntactic position, literal spelling) states against independent reference decoders: every number spelling of length <= 5 (6 thorough) over a 12-character alphabet, boundary families around 2^32 / 2^63 / 2^64 and the f64 range in decimal, hex, binary and hex-float, in 20 positions (type, keys, range bounds, occurrence bounds, tag / simple-value numbers, control and generic arguments); every sequence of <= 3 (4) text escape building blocks (24 blocks incl. surrogate pairs of planes 1, 2, 16, lone surrogates, \\u{...} variants) in 6 positions; every sequence of <= 3 (4) hex / base64 / base64url building blocks incl. whitespace, comments and padding variants; the value stored in the AST is read at the hole and must equal the reference value, invalid or unrepresentable spellings must not be accepted as a literal",
    note="trusts the reference decoders in mc/src/c07.rs (u128 integers, std's decimal-to-double on a re-assembled canonical spelling, exact hex floats, RFC 9682 escapes, RFC 4648); open questions (escapes in unprefixed byte strings, radix mantissas, non-zero base64 trailing bits, mixed alphabets) are don't-care",
    tech="bounded-exhaustive enumeration of literal spellings x positions + reference decoder conformance")
+CHECKS["C09"] = dict(level="model_checking", ref="DESIGN.md §5 C09, §9", thorough=True,
+   text="explicit-state relational exploration: a state is (identity instance, validator, document); identity instances are A / B vs A, B, B / A and A .and B, A .within B vs A, B for every ordered pair of 21 (31 thorough) operand types, T .ne v vs T and T .eq v, inclusive vs exclusive ranges, each in 7 single-position contexts (top level, array element, map value, next to an optional member, generic argument, optional trailing element), ? * + vs 0*1 0* 1* for 10 entry kinds in array and map contexts, and 17 prelude names vs their Appendix D definitions; every instance is run on both real validators over the JSON universe (+ CBOR-only values) and the law of the identity is evaluated on the verdicts",
+   note="no reference model (the laws relate runs of the same validator); float16/32/64 = #7.25/26/27 are left out because C02's encoding-independence leaves open what a width-specific type may reject; one recorded JSON defect is attributed on a committed state list",
+   tech="bounded-exhaustive enumeration of identity instances x documents, algebraic (metamorphic) laws on the real validators")
 NA = {}
 def main():
     props=[json.loads(l)["id"] for l in open("/verif/properties.jsonl")]
